@@ -747,6 +747,9 @@ SHAPES = {
     "umc": [("um", "A", "Z"), ("mm", "Z", "Y")],
     "muc": [("mm", "X", "Z"), ("mu", "Z", "B")],
     "ume": [("um", "A", "Z"), ("eq", "Z", "Y")],
+    "mue": [("eq", "X", "Z"), ("mu", "Z", "B")],
+    "umce": [("um", "A", "W"), ("eq", "W", "Z"), ("mm", "Z", "Y")],
+    "muce": [("mm", "X", "Z"), ("eq", "Z", "W"), ("mu", "W", "B")],
     "rdy": [("mm", "Xr", "Yr")],
 }
 KINDS = ["port", "nb", "plain"]
@@ -1077,6 +1080,26 @@ def openloop_designs():
     d.exposed += [("t0", f), ("t1", "l0.m1")]
     d.constrain("mu", "l0.m0", "l0.lb0", site="l0"); d.constrain("mu", "l0.m0.rdy", "l0.lb0", site="l0")
     d.constrain("um", "l0.lb0", "l0.m1", site="l0"); d.constrain("um", "l0.lb0", "l0.m1.rdy", site="l0")
+    out.append(d)
+    # the pass-through is on the right-hand side of the constraint
+    d = CLDesign("ol_pt_rhs", "ol")
+    d.leaf("l0", "m0:port m1:port", wrap=1, blocks=[{"name": "lb0", "once": True}])
+    f = d.passthru("p0", "l0.m1")
+    d.exposed += [("t0", "l0.m0"), ("t1", f)]
+    d.constrain("mu", "l0.m0", "l0.lb0", site="l0"); d.constrain("um", "l0.lb0", "l0.m1", site="l0")
+    out.append(d)
+    # a chain through a method nobody calls, between a top-level method and a block / another top-level method
+    d = CLDesign("ol_chain", "olchain")
+    d.leaf("l0", "m0:port m1:port m2:port", blocks=[{"name": "lb0", "once": True}])
+    d.exposed += [("t0", "l0.m0"), ("t1", "l0.m1")]
+    d.constrain("mm", "l0.m0", "l0.m2", site="l0"); d.constrain("mu", "l0.m2", "l0.lb0", site="l0")
+    d.constrain("um", "l0.lb0", "l0.m1", site="l0")
+    out.append(d)
+    d = CLDesign("ol_chain_mm", "olchain")
+    d.leaf("l0", "m0:port m1:port m2:port")
+    d.exposed += [("t0", "l0.m0"), ("t1", "l0.m1")]
+    d.block("b0", [])
+    d.constrain("mm", "l0.m1", "l0.m2", site="l0"); d.constrain("mm", "l0.m2", "l0.m0", site="l0")
     out.append(d)
     # cyclic only for the open-loop scheduler: the two slots are ordered both ways
     d = CLDesign("ol_cyc", "olcyc")
@@ -1466,25 +1489,21 @@ def run_phase(res, tier):
         # ---- spec -> code: TLC's linear extensions of the specification's relation
         f_idx = [i for i in range(len(designs)) if not info[i]["cyc"] and 2 <= nreal[i] <= 5
                  and (not quick or designs[i].family != "pair" or i % 3 == 0)]
-        rd, exts = spec_extensions(sdir, descs, f_idx, 4 if quick else 40, rng("c02cl-ext"))
+        rd, exts = spec_extensions(sdir, descs, f_idx, 4 if quick else 24, rng("c02cl-ext"))
         res.add_tlc(rd)
 
         # ---- the real simulator
         _W.update(designs=designs, descs=descs, info=info, exts=exts, sdir=sdir,
-                  params={"seeds": (0, 1) if quick else (0, 1, 2, 3, 4, 5), "cycles": 2,
+                  params={"seeds": (0, 1) if quick else (0, 1, 2, 3), "cycles": 2,
                           "ol_seeds": (0, 1, 2) if quick else tuple(range(8)), "ol_calls": 8 if quick else 14,
-                          "own_limit": 6 if quick else 60})
+                          "own_limit": 6 if quick else 24})
         # designs the acyclic-only passes refuse go through dump_dag (one fixed file in /tmp): one process
         cyc_all = [i for i in range(len(designs)) if info[i]["cyc"] or info[i]["cyc_ol"]]
         rest = [i for i in range(len(designs)) if i not in set(cyc_all)]
         nchunk = max(1, min(len(rest), ncpu * 2))
         jobs = [(ci, rest[ci::nchunk]) for ci in range(nchunk)] + [(nchunk, cyc_all)]
-        sys.path.insert(0, sdir)
-        try:
-            with multiprocessing.get_context("fork").Pool(ncpu) as pool:
-                results = pool.map(_worker, jobs)
-        finally:
-            sys.path.remove(sdir)
+        with multiprocessing.get_context("fork").Pool(ncpu) as pool:
+            results = pool.map(_worker, jobs)
         traces, obs = [], {}
         for tr, ob in results:
             traces += tr
